@@ -266,6 +266,19 @@ fn emit_case(em: &mut Emitter, id: String, c: Case, fx: Fixes, extra_tags: Vec<S
     for k in &cls {
         tags.push(format!("class:{k}"));
     }
+    // the Coq class (Known_F15 = not calm) against the harness's F15 predicate
+    let calm = coq_calm(&c);
+    let in_harness = cls.contains(&"F15-close-then-more");
+    tags.push(format!("coq-class:{}", if calm { "outside" } else { "inside" }));
+    tags.push(
+        match (in_harness, !calm) {
+            (true, true) => "classes:both-inside",
+            (false, false) => "classes:both-outside",
+            (false, true) => "classes:coq-only (theorem does not cover, oracle judges)",
+            (true, false) => "classes:HARNESS-ONLY (must not happen)",
+        }
+        .to_string(),
+    );
     tags.sort();
     tags.dedup();
     let tr = truth(&c);
@@ -273,9 +286,18 @@ fn emit_case(em: &mut Emitter, id: String, c: Case, fx: Fixes, extra_tags: Vec<S
     let nontrivial = c.reqs.len() >= 2 && tr.head_round.iter().filter(|h| h.is_some()).count() >= 2 || early;
     let (expect, showv, ok, why) = match r {
         Ok(o) => {
-            let v = out_v(&o);
-            let verdict = oracle_c03(&c, &o);
-            (Some(v.coq()), show(&o), verdict.is_ok(), verdict.err().unwrap_or_default())
+            let v = match out_v(&o) {
+                V::L(mut polls) => {
+                    polls.push(V::T("calm", vec![V::b(calm)]));
+                    V::L(polls)
+                }
+                v => v,
+            };
+            let mut verdict = oracle_c03(&c, &o);
+            if in_harness && calm {
+                verdict = verdict.and(Err("harness F15 class contains a case outside the Coq class".to_string()));
+            }
+            (Some(v.coq()), v.show(), verdict.is_ok(), verdict.err().unwrap_or_default())
         }
         Err(p) => {
             em.panics += 1;
